@@ -116,12 +116,18 @@ Definition run_model2 (env : cenv_t) (pid arg : N) (aux data : list N) : option 
            end
   (* 50: read_length_prefixed_bytes with the growth of the buffer in the accounting (ModelIo2) *)
   | 50 => Some (Exact (sdi_lp_bytes_g false data))
+  (* read_length_prefixed_bytes through ReaderDataInput / RangeReader / MmapDataInput (the provided
+     read_vec over their read_bytes): [length; first 24 bytes] *)
+  | 53 => Some (Exact ('(len, n) <- leb_u data ;; rest <- advance data n ;;
+                       '(v, _) <- read_vec_g false len rest ;; ret (obs_bytes v)))
+  (* DataInput::read_vec(arg) on every input kind *)
+  | 54 => Some (Exact ('(v, _) <- read_vec_g false arg data ;; ret (obs_bytes v)))
   | 90 => Some (Exact (suv_cell data))
   | 91 => Some (Exact (zo_cell data))
   | _ => None
   end.
 
-Definition model2_ids : list N := [50; 90; 91; 100; 101; 102; 103; 104; 105; 108; 109; 110; 111; 120; 121; 122; 123; 130; 82; 140; 141; 142; 143; 150; 151; 152; 153].
+Definition model2_ids : list N := [50; 53; 54; 90; 91; 100; 101; 102; 103; 104; 105; 108; 109; 110; 111; 120; 121; 122; 123; 130; 82; 140; 141; 142; 143; 150; 151; 152; 153].
 
 Fixpoint match_vals (m v : list Z) : bool :=
   match m, v with
